@@ -632,6 +632,7 @@ def make_alias_case(seed, i):
     rng.shuffle(items)
     new = [rng.choice((10.0, 20.5, -3.0, 100.0, 0.0)) for _ in range(n)]
     return {'kind': 'alias', 'id': '%s/%s' % (seed, i), 'items': [list(x) for x in items],
+            'two_step': i % 4 == 3,
             'names': [N % c.upper() for c in chain], 'is_rng': is_rng, 'row': t_row,
             'n': n, 'new': new, 'outputs': [S % ('B%d' % k) for k in (1, 2, 3, 4)]}
 
@@ -641,7 +642,15 @@ def check_alias(case, ctx):
     S = "'[book.xlsx]S'!%s"
     n, new = case['n'], case['new']
     try:
-        m = formulas.ExcelModel().from_dict(dict(map(tuple, case['items']))).finish()
+        if case.get('two_step'):
+            # the constants first, the names and formulas in a second import
+            first = {k: v for k, v in case['items'] if not isinstance(v, str)}
+            rest = {k: v for k, v in case['items'] if isinstance(v, str)}
+            m = formulas.ExcelModel().from_dict(first)
+            m.from_dict(rest).finish()
+            ctx.count('monitor.alias-two-step')
+        else:
+            m = formulas.ExcelModel().from_dict(dict(map(tuple, case['items']))).finish()
         twin_items = dict(map(tuple, case['items']))
         for r in range(n):
             if case['is_rng'] or r + 1 == case['row']:
@@ -677,6 +686,60 @@ def check_alias(case, ctx):
                              ' (the same workbook with the cells holding these values)']})
 
 
+# -- overriding a formula-valued defined name -------------------------------------------
+
+def make_valname_case(seed, i):
+    rng = random.Random('fvmon/C07/valname/%s/%s' % (seed, i))
+    for _ in range(40):
+        desc = gw.gen(rng)
+        names = sorted(n for n, node in desc['names'].items()
+                       if node[0] == 'val' and node[2][0] != 'lit')
+        if names:
+            break
+    else:
+        return None
+    nm = rng.choice(names)
+    b = desc['names'][nm][1]
+    # make sure some formulas read the name
+    sh_ = desc['books'][b]['sheets'][-1]['cells']
+    sh_['M13'] = {'f': ['bin', '+', ['name', nm], ['lit', 1.0]]}
+    sh_['M14'] = {'f': ['call', 'SUM', [['name', nm], ['lit', 2.0]]]}
+    v = rng.choice((5.0, 100.0, -3.0, 0.0, 12.5))
+    return {'kind': 'valname', 'id': '%s/%s' % (seed, i), 'desc': desc, 'name': nm,
+            'value': v}
+
+
+def check_valname(case, ctx):
+    import copy as _copy
+    desc, nm, v = case['desc'], case['name'], case['value']
+    twin = _copy.deepcopy(desc)
+    twin['names'][nm] = ['val', desc['names'][nm][1], ['lit', v]]
+    try:
+        m = wbrun.load_dict(desc)
+        t = wbrun.load_dict(twin)
+        sol = m.calculate(inputs={_name_id(desc, nm): v})
+        want = wbrun.solution_cells(twin, t.calculate())
+    except Exception as ex:
+        ctx.count('valname.raised')
+        ctx.see('valname-raised', '%s: %s' % (type(ex).__name__, str(ex)[:80]))
+        return
+    got = wbrun.solution_cells(desc, sol)
+    ctx.case(('valname', case['id']))
+    ctx.count('monitor.valname-override')
+    bad = [k for k in want if not xl.same(got.get(k, ('missing',)), want[k], rel=1e-12)]
+    if bad:
+        k = bad[0]
+        down = wbrun.downstream(desc, [])  # noqa
+        ctx.violation('valname:override-differs-from-constant-twin:%s' % wbrun._cls(
+            got.get(k, ('missing',))), {
+            'case': case, 'name': nm, 'definition': gw.formula_text(
+                desc, desc['names'][nm][2], (desc['names'][nm][1], -1)),
+            'supplied': v, 'cell': gw.key_of(desc, *k), 'n_cells': len(bad),
+            'observed': xl.show(got.get(k, ('missing',))),
+            'accepted': [xl.show(want[k]) + ' (the workbook in which the name is the '
+                                            'constant %r)' % v]})
+
+
 def plan(tier, seed):
     n = 160 if tier == 'quick' else 3000
     per = 10 if tier == 'quick' else 60
@@ -686,6 +749,8 @@ def plan(tier, seed):
     specs += [{'kind': 'circular', 'lo': lo, 'hi': lo + 100} for lo in range(0, nc, 100)]
     na = 200 if tier == 'quick' else 3000
     specs += [{'kind': 'alias', 'lo': lo, 'hi': lo + 100} for lo in range(0, na, 100)]
+    nv = 60 if tier == 'quick' else 900
+    specs += [{'kind': 'valname', 'lo': lo, 'hi': lo + 30} for lo in range(0, nv, 30)]
     return specs
 
 
@@ -694,6 +759,8 @@ def check_case(case, ctx):
         check_circ(case, ctx)
     elif case['kind'] == 'alias':
         check_alias(case, ctx)
+    elif case['kind'] == 'valname':
+        check_valname(case, ctx)
     else:
         check_history(case, ctx)
 
@@ -705,6 +772,16 @@ def run(spec, ctx):
             case = make_circ_case(spec['seed'], i)
             check_circ(case, ctx)
         ctx.sample({'cells': case['cells'], 'overrides': case['X']})
+        return
+    if spec['kind'] == 'valname':
+        for i in range(spec['lo'], spec['hi']):
+            case = make_valname_case(spec['seed'], i)
+            if case is None:
+                continue
+            ctx.open_case({'kind': 'valname', 'id': case['id']})
+            check_valname(case, ctx)
+        if case:
+            ctx.sample({'formula_valued_name': case['name'], 'supplied': case['value']})
         return
     if spec['kind'] == 'alias':
         for i in range(spec['lo'], spec['hi']):
@@ -736,7 +813,8 @@ def finalize(agg, tier):
                      ('override-values-as-Ranges.own', 20),
                      ('override-values-as-Ranges.other', 20),
                      ('monitor.nodeless-member-in-solution', 8),
-                     ('monitor.alias-override', 400)):
+                     ('monitor.alias-override', 400),
+                     ('monitor.valname-override', 40)):
         if c.get(k, 0) < floor:
             inc.append('monitor %s saw %d events (< %d)' % (k, c.get(k, 0), floor))
     return {'inconclusive': inc, 'coverage': {
